@@ -305,6 +305,7 @@ func runCase(c Case, r *runlog.R) error {
 			classIf(k > 0 && !st.Fresh, "call over the result of the previous call")
 			classIf(k > 0 && st.Fresh, "call into a newly pre-filled target of a type unpacked before")
 			classIf(st.Reuse, "the same *Config object unpacked again")
+			classIf(st.Repeat && !st.Reuse, "the configuration of the previous call unpacked again from a new *Config object")
 			for j := 0; j < k; j++ {
 				classIf(tagSel(steps[j].Tag) != tagSel(st.Tag), "type unpacked earlier under another struct tag name")
 				classIf(vtagSel(steps[j].VTag) != vtagSel(st.VTag), "type unpacked earlier under another validator tag name")
@@ -372,6 +373,6 @@ var subUnpack = runlog.Register(&runlog.Sub[Case]{
 	Run:  runCase,
 })
 
-func TestPrefilledUnpack(t *testing.T) { subUnpack.Check(t, 160000, 3000000) }
+func TestPrefilledUnpack(t *testing.T) { subUnpack.Check(t, 140000, 3000000) }
 
 func TestReplay(t *testing.T) { runlog.ReplayMain(t) }
